@@ -49,7 +49,7 @@ class JWSRegistry:
 
         :param name: value of the ``alg``, e.g. ``HS256``, ``RS256``
         """
-        if name not in self.algorithms:
+        if not isinstance(name, str) or name not in self.algorithms:
             raise UnsupportedAlgorithmError(f'Algorithm of "{name}" is not supported')
 
         if self.allowed:
